@@ -563,6 +563,7 @@ func (se *SessionExecutor) recycleBackendConn(pc backend.PooledConnect) {
 
 	if pc.IsClosed() {
 		se.recycleTx(pc)
+		se.forgetKsConn(pc)
 		pc.Recycle()
 		return
 	}
@@ -590,6 +591,7 @@ func (se *SessionExecutor) recycleContinueConn(pc backend.PooledConnect) {
 	}
 	if pc.IsClosed() {
 		se.recycleTx(pc)
+		se.forgetKsConn(pc)
 		pc.Recycle()
 		return
 	}
@@ -1509,6 +1511,16 @@ func (se *SessionExecutor) recycleTx(pc backend.PooledConnect) {
 	for sliceName, txConn := range se.txConns {
 		if txConn == pc {
 			delete(se.txConns, sliceName)
+		}
+	}
+}
+
+// forgetKsConn unpins a keep-session connection that is being recycled because it is closed,
+// so that it is neither used nor recycled again.
+func (se *SessionExecutor) forgetKsConn(pc backend.PooledConnect) {
+	for sliceName, ksConn := range se.ksConns {
+		if ksConn == pc {
+			delete(se.ksConns, sliceName)
 		}
 	}
 }
